@@ -7,6 +7,14 @@ Helper lemmas for `Props/ClusterStatus.lean`: closed forms of the loops of `_upd
 namespace Jade.Cluster
 open Jade.Gen.Cluster
 
+/-- In this tree `_serialize_jobs` compares the job-status hash with `_config_hash`: whenever that slot does not
+    hold a job-status snapshot (it never does, `HashWf`), the test says "changed". -/
+theorem jsChanged_of_cfgSlot (j : JsView) (x y : Option Snap) (hx : ∀ j' : JsView, x ≠ some (Snap.js j')) :
+    jsChanged (Snap.js j) x y = true := by
+  simp only [jsChanged, bne_iff_ne, ne_eq]
+  intro h
+  exact hx j h.symm
+
 /-! ## counting -/
 
 /-- If `l2` differs from `l1` in `p` exactly at the (distinct, valid) indices `c`, where `p` turns from false to true,
